@@ -122,6 +122,9 @@ class ScriptedSocket(object):
         self.recv_calls += 1
         if n <= 0:
             raise ValueError('recv size')
+        if n > 2 ** 40:
+            # a real socket allocates a buffer of the requested size before it reads: a petabyte request fails there
+            raise MemoryError('recv(%d): a real socket allocates the requested number of bytes first' % n)
         while not self.pending:
             if not self.script:
                 return b''
